@@ -555,6 +555,20 @@ def install(E):
                 for key, sort, val in (("%s.$lastpos" % cls, IntS, n), ("%s.$lastlist" % cls, RefS, lst.t)):
                     arr = E.heap_array(P, key, sort)
                     P.heap[key] = z3.Store(arr, x.t, val)
+            if lst.ekind == "dt":
+                # ghost: per list of instants, the index at which an instant was appended last (`pos_in(lst, t)` in contract
+                # text) - replaces the existential in "every qualifying boundary IS listed".  A fresh row with point-wise
+                # axioms, like l_store, so that E-matching reaches the old row.
+                key = "list.$pos.dt"
+                G = E.heap_array(P, key, z3.ArraySort(IntS, IntS))
+                old = E.sel(G, lst.t)
+                new = E.fresh("posrow", old.sort())
+                u = E.unwrap(x, "dt")
+                j = z3.Const("j!pos", IntS)
+                P.assume(z3.Select(new, u) == n)
+                P.assume(z3.ForAll([j], z3.Implies(j != u, z3.Select(new, j) == z3.Select(old, j)), patterns=[z3.Select(new, j)]))
+                P.heap[key] = z3.Store(G, lst.t, new)
+                P.written.add(key)          # part of the frame: a contract that appends instants lists it in `modifies`
             return [(P, NONE)]
         raise Unsupported("append on %r" % (lst,))
 
@@ -839,6 +853,12 @@ def install(E):
         if P.old is None:
             raise SpecError("old_len() outside a postcondition")
         return [(P, Num(E.l_len(P.old, lst), True))]
+
+    @reg("pos_in", True)
+    def _pos_in(E, P, ctx, lst, t):
+        """ghost: index at which instant t was last appended to the list of instants lst"""
+        G = E.heap_array(P, "list.$pos.dt", z3.ArraySort(IntS, IntS))
+        return [(P, Num(z3.Select(E.sel(G, lst.t), E.unwrap(t, "dt")), True))]
 
     @reg("unchanged", True)
     def _unchanged(E, P, ctx, *keys):
